@@ -12,11 +12,12 @@ CHECKS = {
   technique="Lean 4 theorem (generalised-Cauchy MDS via polynomial root counting) + proved certificate run on extracted generators",
   text="Proof: C01_cauchy, C01_xor, C01_default quantify over all (d,p) with d+p<=256 and all survivor sets (no enumeration): "
        "a degree<d polynomial with d roots is zero; the default generator is proved equal to the Lagrange matrix through the "
-       "proved Gaussian elimination. Jerasure is decided per configuration by running the proved checker "
-       "(C01_certGC: certGC=true -> MDS) in the compiled driver. Tie: generators extracted from the real encoder (Encode of unit "
-       "vectors) must equal the model's generators.",
+       "proved Gaussian elimination. Jerasure and Leopard GF(2^8) are decided per configuration by running the proved checkers "
+       "(C01_certGC, C01_leo8_cert: certificate = true -> MDS; Leopard's field is GF256 under the Cantor map, C17leo_toGF) in "
+       "the compiled driver. Tie: generators extracted from the real encoder (Encode of unit vectors) must equal the model's.",
   note=TB + " Modelled not verified: that Encode applies this generator column-wise (C03). Jerasure closed form not proved "
-       "in general (certificate per explored configuration). Leopard generators: see C04.",
+       "in general (certificate per explored configuration; all 21,845 Leopard GF8 pairs in the thorough tier). Leopard GF16: "
+       "equality with the Lagrange closed form and C05's reconstructions only (no GF(2^16) field in Lean).",
   design="4/C01"),
  "C02": dict(
   technique="Lean 4 theorem: the modelled reconstruct algorithm equals its specification for every MDS generator (via proved Gaussian elimination)",
@@ -39,6 +40,32 @@ CHECKS = {
   note=TB + " The dispatch (which kernel covers which byte range) is exercised by correspondence here and modelled in C07; "
        "assembly kernels are tied by execution (C08).",
   design="4/C03"),
+ "C04": dict(
+  technique="Lean 4 theorems about an interpreter of butterfly schedules (locality, linearity, scratch independence) + Leopard GF(2^8) field tied to GF256 by kernel-evaluated tables; generators vs Lagrange closed form by execution",
+  text="Proof: C04_local / C04_chunking / C04_linear / C04_superpose / C04_scratch and their lifts to `encode` hold for ARBITRARY "
+       "step lists, hence for every (d,p), shard size and content: no chunking (incl. the 32 KiB work chunk) can change a "
+       "symbol, the output is determined by the unit vectors, reused work buffers cannot matter. C17leo_*: Leopard's GF(2^8) "
+       "log/exp/product tables, evaluated by the kernel, are GF(2^8)/0x11D under the Cantor map; constants regenerated from "
+       "the Go source are the published ones. Tie: generators of the real encoders (all 21,845 GF8 pairs in the thorough tier, a "
+       "structured sample + GF16 grid in the quick tier) = schedule model = Lagrange closed form over nodes m..n-1; the "
+       "hypotheses of the structural theorems (rows in range, no read-before-write) decided per configuration; seeded encodes at "
+       "sizes straddling the 32 KiB chunk, forced GF16, option sets; Leopard Verify flips.",
+  note=TB + " PARTIAL: that the schedule generators emit the Lin-Chung-Han transform is established per explored "
+       "configuration (equality with the closed form), not by a general theorem; GF(2^16) has no field instance in Lean "
+       "(xor-linearity of its product is a hypothesis); SIMD butterflies = reference by C08's execution tie.",
+  design="4/C04, 10.2"),
+ "C05": dict(
+  technique="Lean 4 theorems about the reconstruct schedule interpreter and the error-locator function + exhaustive erasure-set correspondence on small configurations",
+  text="Proof: C05_local / C05_linear / C05_scratch (fixed erasure set, arbitrary step lists), C05_present_untouched, "
+       "C05_data_only, C05_errLocs_fn / C05_reconSched_fn (locator table and schedule are functions of the erasure set, so "
+       "caching by the complete erasure set is sound), C05_reconstruct_local/chunking/linear. Tie: Reconstruct* of the real "
+       "encoders vs original bytes (L0) and schedule model (L1): every erasure set with |E|<=p+1 for GF8 d+p<=6 and forced "
+       "GF16 d+p<=5, seeded larger ones incl. <=p/4 erasures with >=64 KiB sets (bit-field shortcut), n>=8192 GF16 "
+       "transforms, three encodings of missing; unit-level: isNeeded after prepare() = 'the aligned block holds an erasure' "
+       "for every block and level (GF8 and GF16).",
+  note=TB + " PARTIAL: correctness of the formal-derivative decoder is established per explored (d,p,E) - complete over "
+       "contents by linearity - not for every E; the pruned FFT equals the full FFT on the outputs read by correspondence.",
+  design="4/C05, 10.2"),
  "C06": dict(
   technique="Lean 4 theorems: Verify-iff, single-byte flip detection from non-zero generator entries of MDS matrices",
   text="Proof: C06_iff, C06_flip_parity, C06_flip_data with C06_mds_entry_ne_zero (every MDS generator has no zero entry, so any "
@@ -159,7 +186,9 @@ CHECKS = {
   text="Proof: every entry of the seven static GF(2^8) tables regenerated from galois.go on every run (65,536 products, log/exp/inv, "
        "nibble tables, 256 GFNI bit-matrices x 256 operands) equals first-principles arithmetic modulo 0x11D; GF256 is proved a "
        "Field (associativity etc. for all operands by xor-linearity + basis cases). Leopard run-time tables: the Lean model's "
-       "initLUTs/initFFTSkew/initMul*LUT (GF8 and GF16) are compared entry by entry with the tables dumped from the running package.",
+       "initLUTs/initFFTSkew/initMul*LUT (GF8 and GF16) are compared entry by entry with the tables dumped from the running "
+       "package; for GF8 the model's log/exp/product/nibble tables are kernel-evaluated and proved to tabulate GF(2^8)/0x11D "
+       "under the Cantor map (C17leo_log/exp/mul/mulLog/mul8LUT/field), and the regenerated constants are the published ones.",
   note=TB + " Leopard tables are tied by executed comparison with the model (complete for GF8 and for GF16 log/exp/skew/walsh; "
        "sampled log_m for the 33M-entry GF16 product tables); GF2P8AFFINEQB semantics as in the Intel SDM.",
   design="4/C17"),
